@@ -283,6 +283,23 @@ def monitors_norm(rep, rng, x, X):
     nc = fd.dense(x, c * X).norm()
     if np.max(np.abs(nc - abs(c) * nrm)) > 1e-9 * max(1.0, np.max(nrm)):
         rep.violation("norm is not absolutely homogeneous", {"x": C.hexf(x), "X": C.hexf(X), "c": c})
+    from FDApy.misc.utils import _integrate
+    for k2 in (24, 48):
+        # a power of two scales every intermediate of the quadrature exactly: small curves are as homogeneous as large ones
+        c2 = 2.0 ** (-k2)
+        n2 = fd.dense(x, c2 * X).norm()
+        if np.max(np.abs(n2 - c2 * nrm)) > 1e-9 * c2 * max(1.0, np.max(nrm)):
+            rep.violation(f"norm is not absolutely homogeneous for the factor 2^-{k2} (small curves)",
+                          {"x": C.hexf(x), "X": C.hexf(X), "c": c2})
+        for meth in ("trapz", "simpson"):
+            try:
+                i1, i2 = float(_integrate(X[0], x, method=meth)), float(_integrate(c2 * X[0], x, method=meth))
+            except Exception as e:  # noqa: BLE001
+                rep.violation(f"_integrate({meth}) raised {type(e).__name__}: {e}"[:200], {"x": C.hexf(x), "y": C.hexf(X[0])})
+                continue
+            if abs(i2 - c2 * i1) > 1e-12 * c2 * max(1.0, float(np.ptp(x))) * max(1.0, float(np.max(np.abs(X[0])))):
+                rep.violation(f"integration ({meth}) is not linear: integral(c*y) != c*integral(y) for c = 2^-{k2}",
+                              {"x": C.hexf(x), "y": C.hexf(X[0]), "c": c2, "int_y": i1, "int_cy": i2})
     if X.shape[0] >= 2:
         from FDApy.misc.utils import _inner_product
         f, g = X[0], X[1]
